@@ -76,3 +76,45 @@ pub fn excerpt(s: &[u8], n: usize) -> String {
 pub fn first_diff(a: &[u8], b: &[u8]) -> usize {
     a.iter().zip(b.iter()).position(|(x, y)| x != y).unwrap_or(a.len().min(b.len()))
 }
+
+/// Paths are kept as `String`s in the model and in replay files. A byte that is not part of a
+/// valid UTF-8 sequence (file names are arbitrary bytes on Unix) is represented by a private-use
+/// character U+F700 + byte; `path_encode` is the inverse.
+pub fn path_decode(bytes: &[u8]) -> String {
+    let mut out = String::new();
+    let mut rest = bytes;
+    while !rest.is_empty() {
+        match std::str::from_utf8(rest) {
+            Ok(s) => {
+                out.push_str(s);
+                break;
+            }
+            Err(e) => {
+                let (good, bad) = rest.split_at(e.valid_up_to());
+                out.push_str(std::str::from_utf8(good).unwrap());
+                out.push(char::from_u32(0xF700 + bad[0] as u32).unwrap());
+                rest = &bad[1..];
+            }
+        }
+    }
+    out
+}
+
+pub fn path_encode(s: &str) -> Vec<u8> {
+    let mut out = Vec::with_capacity(s.len());
+    let mut buf = [0u8; 4];
+    for c in s.chars() {
+        let u = c as u32;
+        if (0xF780..=0xF7FF).contains(&u) {
+            out.push((u - 0xF700) as u8);
+        } else {
+            out.extend_from_slice(c.encode_utf8(&mut buf).as_bytes());
+        }
+    }
+    out
+}
+
+pub fn os(s: &str) -> std::ffi::OsString {
+    use std::os::unix::ffi::OsStringExt;
+    std::ffi::OsString::from_vec(path_encode(s))
+}
